@@ -6,7 +6,8 @@ from mpmath import mpf
 from common import f, finite, main
 from logref import R
 
-LO, HI = mpf(2) ** -960, mpf(2) ** 1000
+# the form's own intermediates are single products/sums of the listed terms: in domain while they stay normal doubles
+LO, HI = mpf(2) ** -1000, mpf(2) ** 1020
 REL = mpf(10) ** -12
 
 
